@@ -19,6 +19,8 @@ application stalls and the workers burst):
   position plus two containers (`C12_write_held_since_drop`, `C12_write_held_after_drop`).  Before fix
   2aa9853 this was false: the first write after everything had been dropped re-created every container from position 0.
 
+* read session, bytes *held*: `C12_read_held_after_drop` (after `dropOldData`: at most the unread bytes plus one container).
+
 Measured, not proved: the allocator-level peak (harness allocation counter, as a function of the number of containers) —
 the models count stream bytes and queue entries, not `malloc` overhead, `std::vector` growth or zlib's work buffers.
 -/
@@ -71,6 +73,13 @@ theorem C12_write_held_after_drop (D : Nat) (hD : 0 < D) (pre : List UFile.WOp) 
   show (UFile.held (UFile.dropOldData (pre.foldl UFile.wstep { dlcs := D })) : Int) <
     max 0 ((pre.foldl UFile.wstep { dlcs := D }).tellp - (pre.foldl UFile.wstep { dlcs := D }).tellg) + 2 * D
   omega
+
+/-- read session (whole containers appended, `RInv`): right after `dropOldData` the bytes held are at most the unread bytes plus one
+    container (`C` bounds the container sizes) — with `C12_read_session_bounded` (unread bytes ≤ max bufferSize R + C) this bounds
+    what a read session holds by `max bufferSize R + 2·C`, however many containers the file has -/
+theorem C12_read_held_after_drop (s : UFile.State) (w : Bytes) (h : UFile.RInv s w) (hpf : s.tellp ≤ s.fileSize) (C : Nat)
+    (hC : ∀ c ∈ s.data, c.size ≤ C) : (UFile.held (UFile.dropOldData s) : Int) ≤ max 0 (s.tellp - s.tellg) + C :=
+  UFile.read_held_after_drop s w h hpf C hC
 
 /-- test (one session, not the theorem): fill a container of 4, read it, drop it, write one more byte — 4 bytes are held,
     not 8 (before fix 2aa9853: a second container from position 0) -/
